@@ -142,6 +142,7 @@ type hist struct {
 	// only every 50 blocks and still shows them
 	retired, retiredB []int
 
+	pendingEst  map[uint64][]uint64 // every estimate value sent for a batch
 	deferOracle bool // several model steps describe ONE real operation (an end block): oracle after the last
 	orphaned    int                     // validators taken out of the bonded set by opOrphan
 	roundServed []types.OutgoingTxBatch // what the signing queries served in the current oracle round
@@ -535,7 +536,7 @@ func newHist(t *testing.T, run *emit.Run) *hist {
 	h := &hist{t: t, run: run, r: run.Rng, in: in, ctx: ctx, ms: keeper.NewMsgServerImpl(in.SkywayKeeper),
 		keyAddr: map[string]int{}, tids: map[string]int{}, bodies: map[string]int{}, cpTriple: map[string]triple{},
 		tripleCp: map[triple]string{}, issued: map[string]bool{}, known: map[uint64]types.InternalOutgoingTxBatch{},
-		servedSeen: map[string]bool{}, queryErr: map[string]bool{}, ever: map[string]bool{}}
+		servedSeen: map[string]bool{}, queryErr: map[string]bool{}, ever: map[string]bool{}, pendingEst: map[uint64][]uint64{}}
 	tok, err := types.NewEthAddress(erc20)
 	if err != nil {
 		t.Fatal(err)
@@ -824,26 +825,52 @@ func (h *hist) opRemove() {
 // is read back from the store and given to the model as OEstimate / ORemove steps.
 func (h *hist) opEndBlock() {
 	live := h.liveNonces()
-	before := map[uint64]uint64{}
-	for _, n := range live {
-		before[n] = h.stored(n).GasEstimate
-	}
 	how := "endblock:estimates"
 	if h.r.Intn(4) == 0 {
 		how = "endblock:timeout"
-		h.ctx = h.ctx.WithBlockTime(h.ctx.BlockTime().Add(11 * time.Minute))
-		h.in.Context = h.ctx
+		h.advance()
 	} else if len(live) > 0 {
 		n := live[h.r.Intn(len(live))]
 		k := 2 + h.r.Intn(4)
 		base := ests[h.r.Intn(len(ests))]
-		for _, v := range h.r.Perm(5)[:k] {
-			e := base + uint64(h.r.Intn(3))
-			_, _ = h.ms.EstimateBatchGas(h.ctx, &types.MsgEstimateBatchGas{
-				Nonce: n, TokenContract: h.token.GetAddress().Hex(), EthSigner: crypto.PubkeyToAddress(h.keys[h.regKey[v]].PublicKey).Hex(), Estimate: e,
-				Metadata: valsettypes.MsgMetadata{Creator: keeper.AccAddrs[v].String(), Signers: []string{keeper.AccAddrs[v].String()}},
-			})
+		var es []uint64
+		vals := h.r.Perm(5)[:k]
+		for range vals {
+			es = append(es, base+uint64(h.r.Intn(3)))
 		}
+		h.sendEstimates(n, vals, es)
+	}
+	h.endBlock(how)
+}
+
+func (h *hist) advance() {
+	h.ctx = h.ctx.WithBlockTime(h.ctx.BlockTime().Add(11 * time.Minute))
+	h.in.Context = h.ctx
+}
+
+// sendEstimates: validators vals send MsgEstimateBatchGas for batch n.  The harness remembers every
+// value sent: estimates stay pending across blocks (and genesis restarts) until they reach consensus.
+func (h *hist) sendEstimates(n uint64, vals []int, es []uint64) {
+	for i, v := range vals {
+		_, _ = h.ms.EstimateBatchGas(h.ctx, &types.MsgEstimateBatchGas{
+			Nonce: n, TokenContract: h.token.GetAddress().Hex(), EthSigner: crypto.PubkeyToAddress(h.keys[h.regKey[v]].PublicKey).Hex(), Estimate: es[i],
+			Metadata: valsettypes.MsgMetadata{Creator: keeper.AccAddrs[v].String(), Signers: []string{keeper.AccAddrs[v].String()}},
+		})
+		h.pendingEst[n] = append(h.pendingEst[n], es[i])
+	}
+}
+
+// endBlock runs the module's real EndBlocker and gives the model what it did, in the order the end
+// blocker works: processGasEstimates (estimates elected -> UpdateBatchGasEstimate) first, then
+// cleanupTimedOutBatches.  A batch can get its estimate elected AND be cancelled in one block (the
+// pending estimates reach consensus only now, e.g. because the snapshot shrank, and the batch is
+// past its timeout): the batch is gone afterwards, the election is recognised by the archive entry
+// for the batch's checkpoint under one of the estimates that were sent for it.
+func (h *hist) endBlock(how string) {
+	live := h.liveNonces()
+	before := map[uint64]uint64{}
+	for _, n := range live {
+		before[n] = h.stored(n).GasEstimate
 	}
 	cc := libcons.New(h.in.ValsetKeeper.GetCurrentSnapshot, h.in.Marshaler)
 	skyway.EndBlocker(h.ctx, h.in.SkywayKeeper, cc)
@@ -859,6 +886,35 @@ func (h *hist) opEndBlock() {
 			h.run.Count("endblock-effect", "estimate-elected")
 			h.step(fmt.Sprintf("OEstimate %d %s", n, emit.ZU(b.GasEstimate)), rOk, map[string]any{"op": "endblock elected estimate", "nonce": n, "estimate": b.GasEstimate})
 			did = true
+		}
+		if b == nil && before[n] == 0 {
+			seen := map[uint64]bool{}
+			for _, e := range h.pendingEst[n] {
+				if seen[e] || e == 0 {
+					continue
+				}
+				seen[e] = true
+				kb := h.known[n]
+				kb.GasEstimate = e
+				ext := kb.ToExternal()
+				cp, err := ext.GetCheckpoint(h.curTid)
+				if err != nil {
+					h.t.Fatal(err)
+				}
+				hx := hex.EncodeToString(cp)
+				if h.issued[hx] || h.ever[hx] || !h.in.SkywayKeeper.GetPastEthSignatureCheckpoint(h.ctx, cp) {
+					continue
+				}
+				// elected in this very block, then the batch was cancelled
+				h.note(cp, triple{h.tidID(h.curTid), h.bodyID(ext), effEst(e)})
+				h.issued[hx] = true
+				kb.BytesToSign = cp
+				h.known[n] = kb
+				h.run.Count("endblock-effect", "estimate-elected and batch timed out in one block")
+				h.step(fmt.Sprintf("OEstimate %d %s", n, emit.ZU(e)), rOk, map[string]any{"op": "endblock elected estimate (batch cancelled in the same block)", "nonce": n, "estimate": e})
+				did = true
+				break
+			}
 		}
 	}
 	for _, n := range live {
@@ -1367,6 +1423,7 @@ func replayCorpus(t *testing.T, run *emit.Run) {
 				Op        string `json:"op"`
 				Estimate  uint64 `json:"estimate"`
 				Validator int    `json:"validator"`
+				Validators []int `json:"validators"`
 			} `json:"steps"`
 		}
 		if json.Unmarshal(raw, &sc) != nil || sc.Kind != "evidence-script" {
@@ -1391,6 +1448,49 @@ func replayCorpus(t *testing.T, run *emit.Run) {
 				h.opSetTid()
 			case "genesis":
 				h.opGenesis()
+			case "estimates-then-endblock": // validators send an estimate for the last batch, a block ends
+				n := h.nonces[len(h.nonces)-1]
+				var es []uint64
+				for range s.Validators {
+					es = append(es, s.Estimate)
+				}
+				h.sendEstimates(n, s.Validators, es)
+				h.endBlock("endblock:estimates")
+			case "unbond": // validators leave the bonded set, the snapshot is rebuilt without them
+				for _, v := range s.Validators {
+					val, err := h.in.StakingKeeper.GetValidator(h.ctx, keeper.ValAddrs[v])
+					if err != nil {
+						t.Fatal(err)
+					}
+					val.Status = stakingtypes.Unbonding
+					if err := h.in.StakingKeeper.SetValidator(h.ctx, val); err != nil {
+						t.Fatal(err)
+					}
+				}
+				h.orphaned++
+				if _, err := h.in.ValsetKeeper.TriggerSnapshotBuild(h.ctx); err != nil {
+					t.Fatalf("corpus: snapshot: %v", err)
+				}
+				h.in.MetrixKeeper.UpdateUptime(h.ctx)
+				h.replay = append(h.replay, map[string]any{"op": "validators unbonding, snapshot rebuilt", "validators": s.Validators})
+			case "timeout-endblock":
+				h.advance()
+				h.endBlock("endblock:timeout")
+			case "evidence-on-elected": // evidence naming the last batch with the given estimate, signed by the validator's key
+				n := h.nonces[len(h.nonces)-1]
+				kb := h.known[n]
+				kb.GasEstimate = s.Estimate
+				subj := kb.ToExternal()
+				tr, cp := h.tripleOf(subj, h.curTid)
+				sgb, _ := types.NewEthereumSignature(cp, h.keys[s.Validator])
+				sig := hex.EncodeToString(sgb)
+				class, note := h.submit(h.ctx, chainName, subj, sig)
+				if class < 0 {
+					t.Fatal(note)
+				}
+				h.run.Count("corpus-evidence-on-elected-class", fmt.Sprint(class))
+				h.step(fmt.Sprintf("OEvidence 1 %d %s (%d, %s)", tr.body, emit.ZU(s.Estimate), s.Validator, tr.coq()), class,
+					map[string]any{"op": "evidence", "kind": "corpus", "subject": subj, "signature": sig})
 			case "executed":
 				n := h.nonces[len(h.nonces)-1]
 				err := h.in.SkywayKeeper.OutgoingTxBatchExecuted(h.ctx, *h.token, types.MsgBatchSendToRemoteClaim{
